@@ -8,6 +8,7 @@ import (
 	"bytes"
 	"encoding/hex"
 	"fmt"
+	"regexp"
 	"runtime/debug"
 	"sort"
 	"strings"
@@ -36,20 +37,72 @@ var (
 	curGroup  string
 )
 
-// guard runs f and converts a panic into (true, message).
+// guard runs f and converts a panic into (true, message). The message starts with "site=<function> | " where
+// <function> is the innermost library frame that is a decoding entry point (UnmarshalCBOR / Validate) or, when the
+// panic happened later (Equal / accessor / MarshalCBOR of an accepted object), the innermost library frame.
 func guard(f func()) (panicked bool, msg string) {
 	defer func() {
 		if r := recover(); r != nil {
 			panicked = true
 			st := string(debug.Stack())
+			site := panicSite(st)
 			if len(st) > 1500 {
 				st = st[:1500]
 			}
-			msg = fmt.Sprintf("%v | %s", r, strings.ReplaceAll(st, "\n", " ; "))
+			msg = fmt.Sprintf("site=%s | %v | %s", site, r, strings.ReplaceAll(st, "\n", " ; "))
 		}
 	}()
 	f()
 	return false, ""
+}
+
+var (
+	reGeneric = regexp.MustCompile(`\[[^\[\]]*\]`)
+	reArgs    = regexp.MustCompile(`\(0x[^)]*\)$|\(\.\.\.\)$|\(\{.*\)$|\(\)$`)
+)
+
+func shortFunc(fn string) string {
+	fn = strings.TrimSpace(fn)
+	fn = reArgs.ReplaceAllString(fn, "")
+	for reGeneric.MatchString(fn) {
+		fn = reGeneric.ReplaceAllString(fn, "")
+	}
+	fn = strings.TrimPrefix(fn, "github.com/bronlabs/bron-crypto/")
+	return fn
+}
+
+func panicSite(stack string) string {
+	lines := strings.Split(stack, "\n")
+	first := ""
+	for i := 0; i+1 < len(lines); i++ {
+		fn := lines[i]
+		if !strings.Contains(fn, "github.com/bronlabs/bron-crypto/") || strings.HasPrefix(fn, "\t") {
+			continue
+		}
+		sf := shortFunc(fn)
+		if first == "" {
+			first = sf
+		}
+		if strings.HasSuffix(sf, ".UnmarshalCBOR") || strings.HasSuffix(sf, ".Validate") {
+			return sf
+		}
+	}
+	if first == "" {
+		return "?"
+	}
+	return "after-accept:" + first
+}
+
+func siteOf(detail string) string {
+	i := strings.Index(detail, "site=")
+	if i < 0 {
+		return ""
+	}
+	rest := detail[i+5:]
+	if j := strings.Index(rest, " | "); j >= 0 {
+		return rest[:j]
+	}
+	return rest
 }
 
 // opt configures add.
